@@ -184,6 +184,7 @@ def run_halflock(chk, tier, want_liveness=False):
     if pid == "C01":
         import inductive
         inductive.halflock_induction(chk, consts, readers=3 if tier == "quick" else 4)
+        inductive.halflock_proof(chk, consts)
     # 2. the real code, all schedules of small scenarios
     todo = list(scenarios(tier))
     if pid == "C18":
